@@ -145,6 +145,7 @@ impl XxHash32 {
 }
 pub mod hash {
     use vstd::prelude::*;
+    // LINKED: units/partitioning/lemmas.rs, harness [C17.link.topic_send.calculate_32], proves this contract from the real function (mirror edits there)
     #[verifier::external_body]
     pub fn calculate_32(data: &[u8]) -> (r: u32)
         ensures r == super::hash32(data@),
